@@ -242,6 +242,27 @@ def check_roundtrip_mode(t, mode):
     allt = all_trees_from_triples(leaves, triples)
     if len(allt) != 1 or ete_clades(allt[0]) != want:
         return f"all_trees_from_triples gives {len(allt)} trees for the triples of {G.tree_newick(t)}"
+    if mode is None and len(G.tree_leaves(t)) >= 3:
+        # operation history: the SAME tree object is edited in place (the labels of its first and last leaf exchanged) and
+        # decomposed again; the triples must be those of the tree as it is now
+        ls = sorted(G.tree_leaves(t))
+        sw = {ls[0]: ls[-1], ls[-1]: ls[0]}
+
+        def relabel(x):
+            return tuple(relabel(c) for c in x) if isinstance(x, tuple) else sw.get(x, x)
+
+        for leaf in tree.get_leaves():
+            leaf.name = sw.get(leaf.name, leaf.name)
+        t2 = relabel(t)
+        leaves2, triples2 = tree_to_triples(tree)
+        disp2 = G.displayed_triples(t2)
+        for a_, b_, c_ in triples2:
+            if (min(a_, b_), max(a_, b_), c_) not in disp2:
+                return (f"after exchanging the labels {ls[0]} and {ls[-1]} in place on a tree already decomposed once, tree_to_triples "
+                        f"yields {(a_, b_, c_)}, not displayed by {G.tree_newick(t2)}")
+        back2 = tree_from_triples(leaves2, triples2)
+        if back2 is None or ete_clades(back2) != G.tree_clades(t2):
+            return f"after an in-place label exchange the rebuilt tree is {back2.write(format=9) if back2 else None}, expected the clades of {G.tree_newick(t2)}"
     return None
 
 
